@@ -369,3 +369,99 @@ fn fc_group_commitment(sess: &Session<TR>, eff_pub: &tr::keys::PublicKeyPackage)
     let bfl = fc::compute_binding_factor_list(&sess.package, pk.verifying_key(), &[]).ok()?;
     fc::compute_group_commitment(&sess.package, &bfl).ok().map(|g| g.to_element())
 }
+
+// ------------------------------------------------------------------ pinning the transcription
+
+/// One signer of a pinned vector: identifier, secret share, nonces, commitments and the expected
+/// binding factor and signature share (all in the suite's encodings).
+pub struct PinSigner {
+    pub id: u16,
+    pub share: [u8; 32],
+    pub hiding: [u8; 32],
+    pub binding: [u8; 32],
+    pub hiding_c: [u8; 33],
+    pub binding_c: [u8; 33],
+    pub want_bf: [u8; 32],
+    pub want_share: [u8; 32],
+}
+
+fn dec_s(b: &[u8; 32]) -> Option<Scalar> {
+    scalar_from_bytes::<TR>(b)
+}
+fn dec_e(b: &[u8; 33]) -> Option<ProjectivePoint> {
+    use fc::Group;
+    <<TR as fc::Ciphersuite>::Group as Group>::deserialize(b).ok()
+}
+
+/// The reference computation of `run` (RFC 9591 over the BIP-340-normalised quantities, untweaked
+/// entry points) on the repository's own Taproot vector: binding factors, shares and the final
+/// signature must come out byte for byte, and the BIP-340 verifier transcription must accept the
+/// signature and reject it with one bit flipped. Returns (values compared, mismatches).
+pub fn pin_reference(group_key: &[u8; 33], msg: &[u8], signers: &[PinSigner], sig: &[u8; 64]) -> (usize, Vec<String>) {
+    let mut n = 0usize;
+    let mut bad = vec![];
+    let Some(p) = dec_e(group_key) else { return (0, vec!["group key does not decode".into()]) };
+    let px = x_of(&p);
+    let Some(q_even) = lift_x(&px) else { return (0, vec!["group key does not lift".into()]) };
+    let p_odd = is_odd(&p);
+    let mut list: scen::spec::CommitmentList<TR> = vec![];
+    for s in signers {
+        let (Some(h), Some(b)) = (dec_e(&s.hiding_c), dec_e(&s.binding_c)) else { return (0, vec!["commitment does not decode".into()]) };
+        list.push((Id::try_from(s.id).unwrap().to_scalar(), h, b));
+    }
+    let Some(bfs) = scen::spec::compute_binding_factors::<TR>(q_even, &list, msg) else { return (0, vec!["binding factors".into()]) };
+    let bf_vals: Vec<Scalar> = bfs.iter().map(|x| x.1).collect();
+    for (s, bf) in signers.iter().zip(bf_vals.iter()) {
+        n += 1;
+        if ser_s::<TR>(bf) != s.want_bf.to_vec() {
+            bad.push(format!("binding factor of signer {}", s.id));
+        }
+    }
+    let r_spec = scen::spec::compute_group_commitment::<TR>(&list, &bf_vals);
+    let r_odd = is_odd(&r_spec);
+    let c = int_mod_n(&tagged_hash("BIP0340/challenge", &[&x_of(&r_spec), &px, msg]));
+    let xs: Vec<Scalar> = list.iter().map(|x| x.0).collect();
+    let mut z = Scalar::ZERO;
+    for (j, s) in signers.iter().enumerate() {
+        let (Some(sh), Some(hn), Some(bn)) = (dec_s(&s.share), dec_s(&s.hiding), dec_s(&s.binding)) else { return (n, vec!["scalar does not decode".into()]) };
+        let Some(lambda) = scen::spec::derive_interpolating_value::<TR>(&xs, xs[j]) else { return (n, vec!["lambda".into()]) };
+        let s_eff = if p_odd { -sh } else { sh };
+        let k = hn + bn * bf_vals[j];
+        let k = if r_odd { -k } else { k };
+        let zi = k + lambda * s_eff * c;
+        n += 1;
+        if ser_s::<TR>(&zi) != s.want_share.to_vec() {
+            bad.push(format!("signature share of signer {}", s.id));
+        }
+        z = z + zi;
+    }
+    let mut got = x_of(&r_spec).to_vec();
+    got.extend_from_slice(&ser_s::<TR>(&z));
+    n += 1;
+    if got != sig.to_vec() {
+        bad.push("final 64-byte signature".into());
+    }
+    n += 2;
+    if !bip340_accepts(&px, msg, sig) {
+        bad.push("BIP-340 verifier transcription rejects the vector's signature".into());
+    }
+    let mut flipped = *sig;
+    flipped[40] ^= 1;
+    if bip340_accepts(&px, msg, &flipped) {
+        bad.push("BIP-340 verifier transcription accepts a modified signature".into());
+    }
+    (n, bad)
+}
+
+/// BIP-340 Verify as a plain predicate (concrete use)
+pub fn bip340_accepts(pk_x: &[u8; 32], msg: &[u8], sig: &[u8; 64]) -> bool {
+    match bip340_residual(pk_x, msg, sig) {
+        Some((a, b)) => a == b,
+        None => false,
+    }
+}
+
+/// x-only output key of BIP-341 for an internal key and an optional merkle root
+pub fn bip341_output_x(internal_x: &[u8; 32], root: &[u8]) -> Option<[u8; 32]> {
+    taproot_output_key(internal_x, root).map(|q| x_of(&q))
+}
